@@ -34,6 +34,9 @@ type Case struct {
 	Extra string `json:"extra,omitempty"`
 	// PtsF, when present, replaces Pts: points with arbitrary finite float64 ordinates.
 	PtsF [][2]model.F `json:"ptsf,omitempty"`
+	// NegZero: a zero x or y of every other point is written as -0 (the same position
+	// as 0: the two are one point of the set, whichever sign the input carries).
+	NegZero bool `json:"negZero,omitempty"`
 }
 
 // the first four are used round-robin by the exhaustive loop; the wider ones are drawn
@@ -275,11 +278,12 @@ func genCase(t *rapid.T) Case {
 	}
 	shape, pts := genPts(t)
 	return Case{
-		Shape:  shape,
-		Layout: int(rapid.SampledFrom(layouts).Draw(t, "layout")),
-		Via:    rapid.SampledFrom([]string{"flat", "flat", "multipoint", "linestring", "polygon", "polygon-rings", "multilinestring", "multipolygon"}).Draw(t, "via"),
-		Pts:    pts,
-		Extra:  rapid.SampledFrom([]string{"", "", "const:0", "const:1", "const:3", "const:5", "x", "y", "mix"}).Draw(t, "extra"),
+		Shape:   shape,
+		Layout:  int(rapid.SampledFrom(layouts).Draw(t, "layout")),
+		Via:     rapid.SampledFrom([]string{"flat", "flat", "multipoint", "linestring", "polygon", "polygon-rings", "multilinestring", "multipolygon"}).Draw(t, "via"),
+		Pts:     pts,
+		Extra:   rapid.SampledFrom([]string{"", "", "const:0", "const:1", "const:3", "const:5", "x", "y", "mix"}).Draw(t, "extra"),
+		NegZero: rapid.IntRange(0, 3).Draw(t, "negzero") == 0,
 	}
 }
 
@@ -350,6 +354,13 @@ func flatOf(c Case) []float64 {
 		p := [2]int64{int64(i), int64(i + 1)}
 		if len(c.Pts) > 0 {
 			p = c.Pts[i]
+		}
+		if c.NegZero && i%2 == 1 {
+			for d := 0; d < 2; d++ {
+				if q[d] == 0 {
+					q[d] = math.Copysign(0, -1)
+				}
+			}
 		}
 		flat = append(flat, q[0], q[1])
 		for d := 2; d < stride; d++ {
